@@ -307,7 +307,7 @@ pub fn run_main(property: &str, tier: &str) -> i32 {
             println!("worker died during run {run} ({exit}); re-executing that run in trace mode");
             let located = match case {
                 Some(c) => Some((Some(c), exit.clone(), stderr.clone())),
-                None => locate_crash(&b.launcher, &b.property, &b.config, seed, run),
+                None => locate_crash(&b.launcher, &b.property, &b.config, b.seed, run),
             };
             match located {
                 Some((Some(case), exit, stderr)) => {
